@@ -123,6 +123,288 @@ def ws_strip(s):
     return s.strip(" \t\r\n")
 
 
+# ---------------------------------------------------------------- caller-supplied capacity
+# Region closed in round 2: every helper that takes a caller array / buffer and a
+# capacity was only ever called with "large enough".  Here each value is swept over
+# every capacity 0..n+2 (and NULL with 0 slots); oracle on the C output:
+#   return value = needed size, whatever the capacity;
+#   stored prefix = first min(capacity, n) items; every other cell untouched;
+#   nothing written beyond the capacity (exact-size heap arrays under ASan).
+def slot_sweep(n):
+    return ["N"] + list(range(0, n + 3))
+
+
+def cells_line(a, slots, end=None):
+    k = 0 if slots == "N" else slots
+    cells = [str(x) for x in a[:k]] + ["_"] * max(0, k - len(a))
+    return "OK %d" % len(a) + "".join(" " + c for c in cells) + ("" if end is None else " @%d" % end)
+
+
+def long_vectors(rng):
+    """vectors around the fixed arrays of the XER body decoders (10 resp. 6 slots)
+    and well beyond"""
+    out = []
+    for n in (5, 6, 7, 8, 9, 10, 11, 12, 13, 20, 33):
+        out.append([1, 2] + list(range(3, n + 1)))
+        out.append([2, U32 - 81] + [rng.choice(ARC_EDGE) for _ in range(n - 2)])
+        out.append([rng.below(2), rng.below(40)] + [rnd_arc(rng) for _ in range(n - 2)])
+    return out
+
+
+def capacity_cases(rng, tier, vectors, octs, good_txt, bad_txt):
+    quick = tier == "quick"
+    cases = []
+    vecs = vectors + long_vectors(rng)
+    seen = set()
+    for a in vecs:
+        if tuple(a) in seen:
+            continue
+        seen.add(tuple(a))
+        n = len(a)
+        if valid_first_pair(a):
+            h = hexs(oid_ref(a))
+            for sl in slot_sweep(n):
+                cases.append(("oid_get_n %s %s" % (sl, h), "cap_oid_get", (a, sl)))
+            cases.append(("oid_idiom " + h, "idiom", a))
+        if not quick or rng.chance(1, 2) or n > 8:
+            h = hexs(b"".join(b128(x) for x in a))
+            for sl in slot_sweep(n):
+                cases.append(("reloid_get_n %s %s" % (sl, h), "cap_reloid_get", (a, sl)))
+            cases.append(("reloid_idiom " + h, "idiom", a))
+    # arbitrary contents octets: metamorphic against the large-capacity answer of the C itself
+    for i, b in enumerate(octs):
+        if len(b) > 2 and quick and i % 4:
+            continue
+        for sl in slot_sweep(min(len(b), 7)) if len(b) > 1 else ["N", 0, 1, 2, 3]:
+            cases.append(("oid_get_n %s %s" % (sl, hexs(b)), "cap_oid_any", (b, sl)))
+            cases.append(("reloid_get_n %s %s" % (sl, hexs(b)), "cap_reloid_any", (b, sl)))
+    # texts
+    for i, (txt, a) in enumerate(good_txt):
+        if quick and i % 2 and len(a) < 9:
+            continue
+        h = hexs(txt.encode("latin1"))
+        for sl in slot_sweep(len(a)):
+            cases.append(("oid_parse_n %s %s" % (sl, h), "cap_parse", (txt, a, sl)))
+        cases.append(("parse_idiom " + h, "idiom_parse", (txt, a)))
+        if i % 3 == 0 and "\x00" not in txt:
+            for sl in slot_sweep(len(a)):      # the same, NUL terminated with oid_txt_length = -1
+                cases.append(("oid_parse_z %s %s" % (sl, h), "cap_parse", (txt, a, sl)))
+    for a in long_vectors(rng):
+        txt = ".".join(str(x) for x in a)
+        for sl in slot_sweep(len(a)):
+            cases.append(("oid_parse_n %s %s" % (sl, hexs(txt.encode())), "cap_parse", (txt, a, sl)))
+            cases.append(("oid_parse_z %s %s" % (sl, hexs(txt.encode())), "cap_parse", (txt, a, sl)))
+    for b in bad_txt:
+        for sl in slot_sweep(min(b.count(b"."), 4)):
+            cases.append(("oid_parse_n %s %s" % (sl, hexs(b)), "cap_parse_any", (b, sl)))
+        if b"\x00" in b:                        # strlen() stops at the NUL: reference = the text up to it
+            z = b[:b.index(b"\x00")]
+            for sl in ("N", 0, 1, 2):
+                cases.append(("oid_parse_z %s %s" % (sl, hexs(b)), "cap_parse_any", (z, sl)))
+    # one subidentifier followed by two octets, handed over with every buffer length
+    vals = sorted(set(ARC_EDGE + [2 ** (7 * k) + d for k in range(1, 5) for d in (-1, 0, 1)] + [rng.below(U32) for _ in range(40 if quick else 2000)]))
+    for v in vals:
+        e = b128(v)
+        for rest in (b"\x05\x06", b"\x85\x86", bytes([rng.below(256), rng.below(256)])):
+            for k in range(0, len(e) + 3):
+                cases.append(("oid_get1 " + hexs((e + rest)[:k]), "buf_get1", (v, len(e), k)))
+    firsts = [(a0, a1) for a0 in (0, 1) for a1 in (0, 1, 38, 39)] + \
+             [(2, x) for x in (0, 1, 39, 40, 47, 48, 127, 128, 2**14 - 81, 2**14 - 80, 2**21 - 80, 2**28 - 81, 2**28 - 80, U32 - 82, U32 - 81)] + \
+             [(2, rng.below(U32 - 80)) for _ in range(10 if quick else 500)]
+    for (a0, a1) in firsts:
+        e = b128(40 * a0 + a1)
+        for rest in (b"\x05\x06", b"\x85\x86"):
+            for k in range(0, len(e) + 3):
+                cases.append(("oid_first " + hexs((e + rest)[:k]), "buf_first", (a0, a1, len(e), k)))
+    for i, b in enumerate(octs):
+        if not quick or i % 3 == 0:
+            cases.append(("oid_first " + hexs(b), "buf_first_any", b))
+    # the XER body decoders: parse_arcs into 10 / 6 fixed slots, then into the count it returned
+    xv = long_vectors(rng) + [a for a in vectors if a][::(7 if quick else 1)]
+    ws = ["", " ", "\r\n", "\t"]
+    for a in xv:
+        txt = rng.choice(ws) + ".".join(str(x) for x in a) + rng.choice(ws)
+        cases.append(("oid_xer " + hexs(txt.encode()), "xer_oid", a))
+        cases.append(("reloid_xer " + hexs(txt.encode()), "xer_reloid", a))
+    # the XER body writers return the number of octets handed to the callback (scratch[32] per arc)
+    for a in xv:
+        if valid_first_pair(a):
+            cases.append(("oid_dump " + hexs(oid_ref(a)), "dump", a))
+        cases.append(("reloid_dump " + hexs(b"".join(b128(x) for x in a)), "dump", a))
+    for i, b in enumerate(octs):
+        if not quick or i % 5 == 0:
+            cases.append(("oid_dump " + hexs(b), "dump_any", b))
+            cases.append(("reloid_dump " + hexs(b), "dump_any", b))
+    # set_arcs on an object that already owns a buffer (smaller, equal, larger than the result; none)
+    for a in xv + [[0, 40], [3, 1], [2, U32 - 80], [1], []]:
+        n = len(oid_ref(a)) if valid_first_pair(a) else 3
+        for pv in ["N", 0, 1, max(0, n - 1), n, n + 1, 5 * len(a) + 1]:
+            cases.append((" ".join(["oid_set_re", str(pv)] + [str(x) for x in a]), "set_re", (a, False)))
+        cases.append((" ".join(["reloid_set_re", str(rng.choice(["N", 0, 1, n, 64]))] + [str(x) for x in a]), "set_re", (a, True)))
+    return cases
+
+
+def split_ref(v):
+    return (2, v - 80) if v >= 80 else (1, v - 40) if v >= 40 else (0, v)
+
+
+def capacity_oracle(run, cases, co, cdrv):
+    # the C's own answers with a capacity larger than any count (reference of the metamorphic kinds)
+    refq = {}
+    for (line, kind, pl) in cases:
+        if kind == "cap_oid_any":
+            refq["oid_get " + hexs(pl[0])] = None
+        elif kind == "cap_reloid_any":
+            refq["reloid_get " + hexs(pl[0])] = None
+        elif kind == "cap_parse_any":
+            refq["oid_parse " + hexs(pl[0])] = None
+        elif kind == "buf_first_any":
+            refq["oid_get1 " + hexs(pl)] = None
+    rl = list(refq)
+    _, ro, _ = run_lines(cdrv, rl, env=SAN_ENV)
+    ro += ["CRASH"] * (len(rl) - len(ro))
+    refq = dict(zip(rl, ro))
+    what_cap = "the helper's return value / stored cells depend on the capacity of the caller's array: expected return value = number of arcs, first min(capacity, n) cells = the first arcs, every other cell untouched"
+    for (line, kind, pl), c in zip(cases, co):
+        exp = None
+        if c == "SKIPPED":
+            continue
+        if kind in ("cap_oid_get", "cap_reloid_get"):
+            a, sl = pl
+            exp = cells_line(a, sl)
+            run.count("cap_slots_" + ("NULL" if sl == "N" else "lt_n" if sl < len(a) else "eq_n" if sl == len(a) else "gt_n"))
+        elif kind in ("cap_oid_any", "cap_reloid_any"):
+            b, sl = pl
+            full = refq[("oid_get " if kind == "cap_oid_any" else "reloid_get ") + hexs(b)]
+            if full == "FAIL":
+                exp = "FAIL"
+            elif full.startswith("OK"):
+                exp = cells_line([int(x) for x in full.split()[1:]], sl)
+            else:
+                continue
+            run.count("cap_any_" + ("fail" if exp == "FAIL" else "ok"))
+        elif kind == "cap_parse":
+            txt, a, sl = pl
+            exp = cells_line(a, sl, len(txt))
+        elif kind == "cap_parse_any":
+            b, sl = pl
+            full = refq["oid_parse " + hexs(b)]
+            m = re.match(r"^OK (\d+)((?: \d+)*) @(-?\d+)$", full)
+            if m:
+                exp = cells_line([int(x) for x in m.group(2).split()], sl, int(m.group(3)))
+            elif re.match(r"^E(INVAL|RANGE) @-?\d+$", full):
+                exp = full
+            else:
+                continue
+            run.count("cap_parse_any_" + ("ok" if m else "err"))
+        elif kind == "idiom":
+            exp = ("OK %d %d " % (len(pl), len(pl)) + " ".join(str(x) for x in pl)).strip()
+        elif kind == "idiom_parse":
+            txt, a = pl
+            exp = ("OK %d %d " % (len(a), len(a)) + " ".join(str(x) for x in a)).strip()
+        elif kind == "buf_get1":
+            v, n, k = pl
+            exp = "NONE" if k == 0 else "EINVAL" if k < n else "OK %d %d" % (v, n)
+        elif kind == "buf_first":
+            a0, a1, n, k = pl
+            exp = "NONE" if k == 0 else "EINVAL" if k < n else "OK %d %d %d" % (a0, a1, n)
+        elif kind == "buf_first_any":
+            g1 = refq["oid_get1 " + hexs(pl)]
+            m = re.match(r"^OK (\d+) (\d+)$", g1)
+            exp = "OK %d %d %s" % (split_ref(int(m.group(1))) + (m.group(2),)) if m else g1
+        elif kind == "dump":
+            t = ".".join(str(x) for x in pl)
+            exp = "OK %d %s" % (len(t), hexs(t.encode()))
+        elif kind == "dump_any":
+            m = re.match(r"^OK (\d+) (\S+)$", c)
+            if m is None or 2 * int(m.group(1)) == (0 if m.group(2) == "-" else len(m.group(2))):
+                continue                      # failure, or returned size = octets delivered
+            exp = "OK <number of octets delivered> <text>"
+        elif kind == "set_re":
+            a, rel = pl
+            if rel:
+                exp = hexs(b"".join(b128(x) for x in a))
+            else:
+                exp = "EINVAL" if len(a) < 2 else hexs(oid_ref(a)) if valid_first_pair(a) else "ERANGE"
+        elif kind == "xer_oid":
+            exp = ("OK " + " ".join(str(x) for x in pl)) if valid_first_pair(pl) else "FAIL"
+            run.count("xer_oid_arcs_" + ("le10" if len(pl) <= 10 else "gt10"))
+        elif kind == "xer_reloid":
+            exp = ("OK " + " ".join(str(x) for x in pl)) if pl else "FAIL"
+            run.count("xer_reloid_arcs_" + ("le6" if len(pl) <= 6 else "gt6"))
+        else:
+            continue
+        if c == exp:
+            continue
+        if kind.startswith("cap_") or kind.startswith("idiom"):
+            run.violation("oracle:capacity(%s)" % line.split()[0], {"what": what_cap, "command_line": line, "expected": exp, "c": c})
+        elif kind.startswith("dump"):
+            run.violation("oracle:size_returned(%s)" % line.split()[0],
+                          {"what": "the XER body writer must deliver the dotted decimal text of the arcs and return the number of octets it delivered",
+                           "command_line": line, "expected": exp, "c": c})
+        elif kind == "set_re":
+            run.violation("oracle:set_arcs_reuse", {"what": "set_arcs on an object that already owns a buffer: same octets as on a fresh object, NUL after them; on failure the object is left as it was",
+                                                    "command_line": line, "expected": exp, "c": c})
+        elif kind.startswith("buf_"):
+            run.violation("oracle:buffer_length(%s)" % line.split()[0],
+                          {"what": "a subidentifier handed over with a buffer length k must be: nothing (k = 0), EINVAL (k inside it), its value and length (k >= its length)",
+                           "command_line": line, "expected": exp, "c": c})
+        else:
+            run.violation("oracle:oid_xer", {"what": "XER body of an arc vector (more arcs than the decoder's fixed array included) does not decode to that vector",
+                                             "command_line": line, "expected": exp, "c": c})
+
+
+def correspond_resume(run, name, lines, model, cdrv, max_restarts=6):
+    """like vlib.correspond, but a sanitizer report does not hide the other lines: the
+    driver's stdout is block buffered and a sanitizer exit loses it, so the offending
+    line is found by bisection, recorded, and the run resumes behind it.  A
+    LeakSanitizer report (it comes at exit and also loses the output) is recorded with
+    the first leaking line, then the lines are run again with leak detection off."""
+    rc_m, mo, me = run_lines(model, lines, timeout=900)
+    if rc_m != 0 or len(mo) != len(lines):
+        raise RuntimeError("model driver failed on %s: rc=%s lines=%d/%d %s" % (name, rc_m, len(mo), len(lines), me))
+    env = SAN_ENV
+    co, start, restarts = [], 0, 0
+    while start < len(lines):
+        rc, o, e = run_lines(cdrv, lines[start:], timeout=900, env=env)
+        if rc == 0 and len(o) == len(lines) - start:
+            co += o
+            break
+        lo, hi = start, len(lines) - 1          # smallest index lo such that lines[start:lo+1] dies
+        ok_out = []
+        while lo < hi:
+            mid = (lo + hi) // 2
+            r2, o2, e2 = run_lines(cdrv, lines[start:mid + 1], timeout=900, env=env)
+            if r2 == 0 and len(o2) == mid + 1 - start:
+                lo, ok_out = mid + 1, o2
+            else:
+                hi, e = mid, e2
+        leak = "LeakSanitizer" in e and "AddressSanitizer:" not in e.replace("SUMMARY: AddressSanitizer", "")
+        run.violation(("leak:" if leak else "crash:") + name,
+                      {"what": "memory leaked by the call (LeakSanitizer)" if leak else "C driver died — sanitizer report or signal",
+                       "command_line": lines[lo], "stderr_tail": e[-1500:],
+                       "replay_cmd": "echo '%s' | <leafdrv built from the repository>" % lines[lo]})
+        if leak:
+            env = dict(SAN_ENV, ASAN_OPTIONS=SAN_ENV["ASAN_OPTIONS"].replace("detect_leaks=1", "detect_leaks=0"))
+            continue
+        co += ok_out
+        co.append("CRASH")
+        start = lo + 1
+        restarts += 1
+        if restarts >= max_restarts:
+            co += ["SKIPPED"] * (len(lines) - len(co))      # enough crash reports; the rest is not evaluated
+            break
+    return mo, co
+
+
+def model_file(kind):
+    if kind.startswith(("cap_", "buf_", "xer_", "dump", "set_re")):
+        return "OidSlots"
+    if kind.startswith(("oid", "reloid")):
+        return "Oid"
+    return "CivilTime" if kind.startswith("libc") else "GTime"
+
+
 # ---------------------------------------------------------------- main
 def main(tier):
     run = Run("C17", tier)
@@ -148,9 +430,10 @@ def main(tier):
     singles = sorted(set(ARC_EDGE + [2 ** k + d for k in range(0, 32) for d in (-1, 0, 1) if 0 <= 2 ** k + d < U32] +
                          [rng.below(U32) for _ in range(200 if tier == "quick" else 5000)]))
     for v in singles:
-        for ln in (0, 1, 2, 4, 5, 6):
+        for ln in (0, 1, 2, 3, 4, 5, 6, 7):
             cases.append(("oid_set1 %d %d" % (ln, v), "oid_set1", (ln, v)))
-    for b in gen_oid_octets(rng, tier):
+    octs = gen_oid_octets(rng, tier)
+    for b in octs:
         cases.append(("oid_get " + hexs(b), "oid_get", b))
         cases.append(("reloid_get " + hexs(b), "reloid_get", b))
         cases.append(("oid_get1 " + hexs(b), "oid_get1", b))
@@ -163,15 +446,15 @@ def main(tier):
     time_cases(run, rng, tier, cases, cdrv)
 
     lines = [c[0] for c in cases]
-    mo, co = correspond(run, "leaf-C17", lines, model, cdrv)
+    mo, co = correspond_resume(run, "leaf-C17", lines, model, cdrv)
 
     # ---- faithfulness: model vs code
     for (line, kind, pl), m, c in zip(cases, mo, co):
         run.case(line, nontrivial=True)
-        run.count(kind)
-        if m != c:
+        run.count(kind if c != "SKIPPED" else "skipped_after_crashes")
+        if m != c and c != "SKIPPED":
             run.count("model_vs_code_diff")
-            run.violation("correspondence:%s(%s)" % ("Oid" if kind.startswith(("oid", "reloid")) else "CivilTime" if kind.startswith("libc") else "GTime", line.split()[0]),
+            run.violation("correspondence:%s(%s)" % (model_file(kind), line.split()[0]),
                           {"what": "model and C disagree", "command_line": line, "model": m, "c": c, "_pending": True})
     for i in (0, len(lines) // 3, 2 * len(lines) // 3, len(lines) - 1):
         run.sample({"cmd": lines[i], "model": mo[i], "c": co[i]})
@@ -179,6 +462,8 @@ def main(tier):
     # ---- property oracle on the C outputs, OID
     q2 = []
     for (line, kind, a), c in zip(cases, co):
+        if c == "SKIPPED":
+            continue
         if kind == "oid_set":
             if len(a) < 2:
                 exp = "EINVAL"
@@ -225,12 +510,37 @@ def main(tier):
 
     time_oracle(run, cases, co, cdrv)
 
+    # ---- caller-supplied capacities (own driver process: a heap overflow there must not hide the rest)
+    cap = capacity_cases(rng, tier, vectors, octs, good_txt, bad_txt)
+    cap_m = [c for c in cap if not c[1].startswith("idiom")]
+    cap_c = [c for c in cap if c[1].startswith("idiom")]         # C only: the sizing idiom end to end
+    mo2, co2 = correspond_resume(run, "leaf-C17-capacity", [c[0] for c in cap_m], model, cdrv)
+    for (line, kind, pl), m, c in zip(cap_m, mo2, co2):
+        run.case(line, nontrivial=True)
+        run.count(kind if c != "SKIPPED" else "skipped_after_crashes")
+        if m != c and c != "SKIPPED":
+            run.count("model_vs_code_diff")
+            run.violation("correspondence:%s(%s)" % (model_file(kind), line.split()[0]),
+                          {"what": "model and C disagree", "command_line": line, "model": m, "c": c, "_pending": True})
+    for i in (0, len(cap_m) // 2, len(cap_m) - 1):
+        run.sample({"cmd": cap_m[i][0], "model": mo2[i], "c": co2[i]})
+    _, io, _ = run_lines(cdrv, [c[0] for c in cap_c], env=SAN_ENV)
+    io += ["CRASH"] * (len(cap_c) - len(io))
+    for (line, kind, pl) in cap_c:
+        run.case(line, nontrivial=True)
+        run.count(kind)
+    capacity_oracle(run, cap_m + cap_c, co2 + io, cdrv)
+    lines = lines + [c[0] for c in cap_m]
+
     oracle_lines = {v.get("command_line") for v in run.violations if v["kind"].startswith("oracle:")}
     for v in run.violations:
         if v.pop("_pending", False):
             v["no_failing_input_found"] = v["command_line"] not in oracle_lines
     # replays are written for the first 20 violations: failing inputs first
     run.violations.sort(key=lambda v: (0 if v["kind"].startswith("oracle:") else 1 if not v.get("no_failing_input_found") else 2))
+    vk = {}
+    for v in run.violations:
+        vk[v["kind"]] = vk.get(v["kind"], 0) + 1
     tb = ["Coq 8.16.1 kernel + vm_compute (Examples, refuted witnesses, one finite sweep of the 400-year cycle if stated)",
           "axioms under Print Assumptions: " + (", ".join(sorted(axioms)) or "none (Closed under the global context)"),
           "extraction: ExtrOcamlBasic only; OCaml 4.13.1; zarith for decimal I/O in the driver glue",
@@ -239,11 +549,11 @@ def main(tier):
           "LP64 data model, 64-bit time_t"]
     return run.finish("proof", (nthm, ndis), trusted_base=tb,
                       checker_cmd="make -C /verif all && coqc -Q coq A1 coq/Props/Properties_C17.v",
-                      extra_cov={"theorems": names, "zones": run.notes,
-                                 "rule": "arc vectors of length 0..12 over the boundary set x random, every valid/invalid first-pair class; octet strings with 0x80 leads, 5..7-octet subidentifiers, truncations; dotted texts per state transition; times at year boundaries, leap days, -1, +-2^31, random, under each zone; a case is one command line",
+                      extra_cov={"theorems": names, "zones": run.notes, "violation_kinds": vk,
+                                 "rule": "arc vectors of length 0..12 over the boundary set x random, every valid/invalid first-pair class; octet strings with 0x80 leads, 5..7-octet subidentifiers, truncations; dotted texts per state transition; times at year boundaries, leap days, -1, +-2^31, random, under each zone; round 2: every valid vector / text x every capacity N,0..n+2 of the caller's array (get_arcs, RELATIVE_OID_get_arcs, parse_arcs with explicit length and with strlen), arbitrary octets / texts x capacities against the C's own large-capacity answer, every buffer length 0..n+2 for get_single_arc / first arcs, XER body decode around 10 / 6 arcs, XER body writer size, set_arcs and asn_time2GT/UT on caller-owned objects of every buffer size; a case is one command line",
                                  "traces_validated_against_impl": len(lines)},
                       assumptions=["models of OBJECT_IDENTIFIER.c / RELATIVE-OID.c / GeneralizedTime.c / UTCTime.c are hand-written; tied by differential run only on the generated cases",
-                                   "NULL arguments, allocation failure, arc_slots smaller than the arc count are not modelled",
+                                   "NULL arguments (other than a NULL array with 0 slots) and allocation failure are not modelled; memory ownership of the time writers / set_arcs (old buffer freed, object untouched on failure) is checked on the C only (ASan/LSan), not modelled",
                                    "libc time functions and the TZ database are modelled by proleptic Gregorian arithmetic plus the offset the libc reports"])
 
 
@@ -390,6 +700,24 @@ def time_cases(run, rng, tier, cases, cdrv):
             force = 0 if rng.chance(1, 5) else 1
             cases.append(("gt_of_time %d %d %d %d %s %d" % (t, fv, fd, force, z, off),
                           "gt_of_time" if force else "gt_of_time_local", (t, fv, fd, force, z)))
+    # the caller's own object handed in (opt_gt / opt_ut): empty, or owning a buffer of every size class
+    # around the sizes the function produces (15 = YYYYMMDDHHMMSSZ, 30 = its internal buffer)
+    PREV = ["N", 0, 1, 12, 13, 14, 15, 16, 24, 25, 29, 30, 31, 64]
+    good = [(t, z, off) for (t, z), off in zip(pairs, offs) if re.match(r"^-?\d+$", off)]
+    step = max(1, len(good) // (60 if tier == "quick" else 1500))
+    for i, (t, z, off) in enumerate(good):
+        if i % step and not (T_MAX - 2 <= t <= T_MAX + 1):
+            continue
+        fv, fd = rng.choice(FRACS)
+        force = 0 if rng.chance(1, 4) else 1
+        plain = "gt_of_time %d %d %d %d %s %s" % (t, fv, fd, force, z, off)
+        cases.append((plain, "gt_of_time" if force else "gt_of_time_local", (t, fv, fd, force, z)))
+        for pv in PREV:
+            cases.append(("gt_of_time_opt %d %d %d %d %s %s %s" % (t, fv, fd, force, z, off, pv), "gt_opt", plain))
+        plain = "ut_of_time %d %d %s %s" % (t, force, z, off)
+        cases.append((plain, "ut_of_time" if force else "ut_of_time_local", (t, z)))
+        for pv in PREV[::3] + [rng.choice(PREV)]:
+            cases.append(("ut_of_time_opt %d %d %s %s %s" % (t, force, z, off, pv), "ut_opt", plain))
     # parser side: arbitrary texts
     texts = gen_gt_texts(rng, tier)
     loc = [(txt, f, rng.choice(zones)) for (txt, f) in texts if f is not None]
@@ -432,7 +760,16 @@ def frac_expected(fv, fd):
 
 def time_oracle(run, cases, co, cdrv):
     q = []
+    c_of = {line: c for (line, kind, pl), c in zip(cases, co)}
     for (line, kind, pl), c in zip(cases, co):
+        if c == "SKIPPED":
+            continue
+        if kind in ("gt_opt", "ut_opt"):
+            run.count("time_opt_prev_" + line.split()[-1])
+            if c != c_of.get(pl):
+                run.violation("oracle:time_opt_object", {"what": "with the caller's own object handed in (any previous buffer size) the function must return that object holding the same text as with a fresh one (size = strlen, NUL terminated), and leave it alone on failure",
+                                                         "command_line": line, "fresh_object": pl, "expected": c_of.get(pl), "c": c})
+            continue
         if kind == "gt_of_time":
             t, fv, fd, force, z = pl
             if not (T_MIN <= t < T_MAX):
